@@ -133,11 +133,31 @@ def gen_history(tier, seed):
                 lines.append("dumpall")
                 continue
             elif roll < 0.92:
-                if r.random() < 0.5:
-                    lines.append(f"setvalues ${a} nd:{shape(la)}:{vals(size(la)).replace(' ', ',')}")
-                else:
+                k = r.random()
+                verb = r.choice(["setvalues ${a}", "setitem ${a} E"]).replace("${a}", f"${a}")
+                if k < 0.35:
+                    lines.append(f"{verb} nd:{shape(la)}:{vals(size(la)).replace(' ', ',')}")
+                elif k < 0.5:
                     wrong = la[::-1] + ["e"]
-                    lines.append(f"setvalues ${a} nd:{shape(wrong)}:{vals(size(wrong)).replace(' ', ',')}")
+                    lines.append(f"{verb} nd:{shape(wrong)}:{vals(size(wrong)).replace(' ', ',')}")
+                elif k < 0.85:
+                    # shapes numpy would happily broadcast: a size-1 axis, fewer leading axes, a 0-d array
+                    lens = [LENS[l] for l in la]
+                    variant = r.choice(["one", "drop", "scalar"])
+                    if variant == "one" and lens:
+                        i = r.randrange(len(lens)); lens[i] = 1
+                    elif variant == "drop" and lens:
+                        lens = lens[r.randint(1, len(lens)):]
+                    else:
+                        lens = []
+                    cnt_ = 1
+                    for x in lens:
+                        cnt_ *= x
+                    st_ = "-" if not lens else ",".join(map(str, lens))
+                    lines.append(f"{verb} nd:{st_}:{vals(cnt_).replace(' ', ',')}")
+                else:
+                    # set_values handed a FlodymArray instead of an ndarray: refused, nothing changes
+                    lines.append(f"setvalues ${a} ${r.choice(list(arrs))}")
                 cnt("setvalues")
                 lines.append("dumpall")
                 continue
